@@ -67,6 +67,8 @@ type GenSpec struct {
 	Wrk     RegGen                      `json:"wrk"`
 	Bcn     RegGen                      `json:"bcn"`
 	Str     StrGen                      `json:"str"`
+	// BigBal: additional balances given as decimal strings (amounts beyond int64; harness `arith`)
+	BigBal map[string]map[string]string `json:"bigbal,omitempty"`
 	// DB backend for this replica ("mem" default, "goleveldb")
 	DB string `json:"db,omitempty"`
 	// SkipInv: construct apps with crisis genesis-invariant assertion skipped
@@ -118,6 +120,7 @@ func DefaultGenSpec() GenSpec {
 }
 
 type World struct {
+	AbsTime *time.Time
 	App          *app.App
 	DB           dbm.DB
 	dbDir        string
@@ -303,6 +306,13 @@ func (w *World) buildGenesis() (app.GenesisState, error) {
 		} else {
 			genAccs = append(genAccs, base)
 		}
+		for d, v := range g.BigBal[n] {
+			amt, ok := sdk.NewIntFromString(v)
+			if !ok {
+				return nil, fmt.Errorf("bad big balance %q", v)
+			}
+			coins = coins.Add(sdk.NewCoin(d, amt))
+		}
 		// every scenario account also holds some stake for gov deposits
 		coins = coins.Add(sdk.NewInt64Coin(StakeDen, 1000000))
 		bals = append(bals, banktypes.Balance{Address: ac.Addr.String(), Coins: coins})
@@ -383,10 +393,14 @@ func (w *World) nameOf(addr string) string {
 }
 
 func (w *World) header() tmproto.Header {
+	t := time.Unix(T0Unix, 0).UTC().Add(time.Duration(w.TimeMs) * time.Millisecond)
+	if w.AbsTime != nil {
+		t = *w.AbsTime // harness `arith`: nanosecond block times far beyond the range of time.Duration
+	}
 	return tmproto.Header{
 		ChainID:            ChainID,
 		Height:             w.Height,
-		Time:               time.Unix(T0Unix, 0).UTC().Add(time.Duration(w.TimeMs) * time.Millisecond),
+		Time:               t,
 		AppHash:            w.App.LastCommitID().Hash,
 		ValidatorsHash:     w.ValSet.Hash(),
 		NextValidatorsHash: w.ValSet.Hash(),
